@@ -329,9 +329,16 @@ def check_lengths(ctx):
                 took = any("decode_inner" in repr(nm.n(g["cond"])) and g["value"] == 0 for g in r.path.guards)
                 if not took:
                     probs.append("success does not depend on decode_inner's verdict")
-                dst = nm.n(di[0]["vals"][1])
-                if "decoded_len" not in repr(dst) and "decoded_len" not in repr(dl[0]):
-                    pass
+                if name == "base64::decode":
+                    # the slice returned must be the `..decoded_len` prefix that was decoded into, not the caller's whole buffer
+                    okv = it.okv(None, r.path, r.ret)
+                    s = repr(okv)
+                    if not (isinstance(okv, tuple) and okv[0] == "ptr" and "get_mut" in s and "RangeTo" in s and "decoded_len" in s):
+                        probs.append("decode() does not return the `..decoded_len(src.len())` prefix of the destination: " + fmt_n(nm.n(okv))[:160])
+                else:
+                    okv = nm.n(it.argval(r.path, it.okv(None, r.path, r.ret)))
+                    if "decoded_len" not in repr(okv):
+                        probs.append("decode_vec() does not return a buffer of decoded_len(src.len()) bytes: " + fmt_n(okv)[:160])
         ctx.add("R09.3", f"C09/b64/{name.split('::')[1]}", not probs, "; ".join(sorted(set(probs))), site_of(f) if f else None)
     f = core.fns.get("base64::decoded_len")
     probs = []
